@@ -306,18 +306,43 @@ func c06Recorded(e *Env) {
 	r.Check(okUnion, "R06.4", pkey+"#union-of-all-tokens", "DependsOnParams is the concatenation of the dependencies of every token, without filter or early exit")
 	// and the stored dependency list is that accumulator
 	okStored := false
+	var unionStores []*ssa.Store
 	for _, b := range pf.Blocks {
 		for _, ins := range b.Instrs {
 			if st, ok := ins.(*ssa.Store); ok {
 				if fa, ok := st.Addr.(*ssa.FieldAddr); ok && fieldName(fa) == "DependsOnParams" {
 					if derivesFromField(st.Val, "DependsOn", 0) || phiOfAppends(st.Val) || (accCall != nil && st.Val == accCall) {
 						okStored = true
+						unionStores = append(unionStores, st)
 					}
 				}
 			}
 		}
 	}
 	r.Check(okStored, "R06.4", pkey+"#stores-the-union", "the result's DependsOnParams is the accumulated list")
+	// every successful return carries it: no fast path hands out code without its references
+	if okStored {
+		okAll, bad := true, token.NoPos
+		for _, b := range pf.Blocks {
+			ret, isRet := b.Instrs[len(b.Instrs)-1].(*ssa.Return)
+			if !isRet || len(ret.Results) == 0 {
+				continue
+			}
+			if k, isK := ret.Results[len(ret.Results)-1].(*ssa.Const); !isK || !k.IsNil() {
+				continue // an error return
+			}
+			dom := false
+			for _, st := range unionStores {
+				if st.Block().Dominates(b) {
+					dom = true
+				}
+			}
+			if !dom {
+				okAll, bad = false, ret.Pos()
+			}
+		}
+		r.Check(okAll, "R06.4", pkey+"#every-success-return-carries-the-union", "every return with a nil error lies behind the store of the accumulated list: a fast path that returns the code without its references loses the parameter edges of that argument", e.P.Pos(bad))
+	}
 	loopExitRule(e, "R06.4", "internal/pkg/resolver", "a reference after the exit is compiled into the code but not recorded", reachableNames(e, "internal/pkg/resolver", "PatternResolver.ResolveArg")...)
 }
 
@@ -577,6 +602,117 @@ func c06Diagnostics(e *Env) {
 
 // ---------------- C07 ----------------
 
+// foreignCondition: a description of a branch condition the call depends on that is neither a loop
+// condition nor a non-emptiness test of one of the call's own arguments; "" when there is none.
+func foreignCondition(c ssa.CallInstruction, a *apath) string {
+	sameAsArg := func(x ssa.Value) bool {
+		x = unwrap(x)
+		px := a.of(x)
+		for _, arg := range c.Common().Args {
+			if unwrap(arg) == x {
+				return true
+			}
+			pa := a.of(arg)
+			if len(px) > 0 && len(px) == len(pa) {
+				all := true
+				for k := range px {
+					if !pa[k] {
+						all = false
+					}
+				}
+				if all {
+					return true
+				}
+			}
+		}
+		return false
+	}
+	// nonEmpty: cond (on edge `onTrue`) says "x is non-empty" for an own argument x
+	nonEmpty := func(cond ssa.Value, onTrue bool) bool {
+		b, ok := cond.(*ssa.BinOp)
+		if !ok {
+			return false
+		}
+		if v, nn, ok := nilTest(cond); ok {
+			return nn == onTrue && sameAsArg(v)
+		}
+		lenOf := func(v ssa.Value) ssa.Value {
+			if call, ok := v.(*ssa.Call); ok {
+				if bi, ok := call.Call.Value.(*ssa.Builtin); ok && bi.Name() == "len" {
+					return call.Call.Args[0]
+				}
+			}
+			return nil
+		}
+		intOf := func(v ssa.Value) (int64, bool) {
+			if k, ok := v.(*ssa.Const); ok && k.Value != nil {
+				return k.Int64(), true
+			}
+			return 0, false
+		}
+		op, l, rr := b.Op, b.X, b.Y
+		if lenOf(l) == nil && lenOf(rr) != nil { // k op len(x)  ->  len(x) op' k
+			l, rr = rr, l
+			switch op {
+			case token.LSS:
+				op = token.GTR
+			case token.LEQ:
+				op = token.GEQ
+			case token.GTR:
+				op = token.LSS
+			case token.GEQ:
+				op = token.LEQ
+			}
+		}
+		x := lenOf(l)
+		k, isK := intOf(rr)
+		if x == nil || !isK || !sameAsArg(x) {
+			return false
+		}
+		switch {
+		case onTrue && (op == token.GTR || op == token.NEQ) && k == 0, onTrue && op == token.GEQ && k == 1:
+			return true
+		case !onTrue && (op == token.EQL || op == token.LEQ) && k == 0, !onTrue && op == token.LSS && k == 1:
+			return true
+		}
+		return false
+	}
+	fn := c.Parent()
+	for _, b := range fn.Blocks {
+		iff, ok := b.Instrs[len(b.Instrs)-1].(*ssa.If)
+		if !ok {
+			continue
+		}
+		for _, onTrue := range []bool{true, false} {
+			if !edgeDominates(b, onTrue, c) {
+				continue
+			}
+			if isLoopHeader(b) { // loop condition: the body runs once per element, the exit after the last
+				continue
+			}
+			if nonEmpty(iff.Cond, onTrue) {
+				continue
+			}
+			edge := "false"
+			if onTrue {
+				edge = "true"
+			}
+			return fmt.Sprintf("the condition %s at %s is %s", iff.Cond.String(), fn.Prog.Fset.Position(iff.Cond.Pos()), edge)
+		}
+	}
+	return ""
+}
+
+// isLoopHeader: b is the target of a back edge (a predecessor that b dominates).
+func isLoopHeader(b *ssa.BasicBlock) bool {
+	for _, p := range b.Preds {
+		if b.Dominates(p) {
+			return true
+		}
+	}
+	return false
+}
+
 func C07(e *Env) {
 	r := e.R
 	e.analysedBase()
@@ -621,6 +757,13 @@ func C07(e *Env) {
 			ca.args = append(ca.args, m)
 		}
 		calls[callee.Name()] = append(calls[callee.Name()], ca)
+		// the edge is added for every element: the only conditions a builder call may depend on are
+		// the loops over the elements and a non-emptiness test of a list it passes on
+		if why := foreignCondition(c, a); why != "" {
+			r.Violate("R07.1", callee.Name()+"#unconditional", "the edge of this kind is added only when "+why+": an element whose other dependency lists are non-empty loses these edges, and a cycle through them is not found", nil, e.P.Pos(c.Pos()))
+		} else {
+			r.Hold("R07.1", callee.Name()+"#unconditional", "the builder call depends on no condition besides the loops over the elements (and a non-emptiness test of its own list)", e.P.Pos(c.Pos()))
+		}
 	}
 	r.Analysed["graph_builder_calls"] = len(calls)
 	has := func(method string, argIdx int, path string) bool {
